@@ -247,7 +247,7 @@ def run(ctx):
     if not exe:
         C.violation(ctx, "build", {"kind": "harness-build-failed", "log": log[-3000:]}, True)
         return C.finish(ctx)
-    ncase = 40 if ctx.tier == "quick" else 1000
+    ncase = 40 if ctx.tier == "quick" else 700
     cases = []
     for i in range(ncase):
         rng = ctx.rng
@@ -422,7 +422,7 @@ def run(ctx):
     if not okm:
         C.violation(ctx, "make", {"kind": "snapshot-build-failed", "log": mlog[-3000:]}, True)
     else:
-        nprog = 1 if ctx.tier == "quick" else 6
+        nprog = 1 if ctx.tier == "quick" else 4
         jobs = []
         for i in range(nprog):
             rng = ctx.rng
@@ -438,7 +438,7 @@ def run(ctx):
                 continue
             # a native run tells how many events each thread has
             gtn = os.path.join(d, "native.bin")
-            subprocess.run([os.path.join(d, "p"), gtn], timeout=60)
+            subprocess.run([os.path.join(d, "p"), gtn], timeout=60, cwd=d)
             nev = [g["n"] for g in c03.read_ground_truth(gtn, nt)]
             for mode in MODES:
                 ks = list(range(1, 6 if ctx.tier == "quick" else 31))
@@ -500,7 +500,7 @@ def run(ctx):
                 "calls single-stepped under ptrace, the would-be file after a kill computed after every instruction "
                 "and the sequence of distinct results compared with the model's micro-steps; crash handler: "
                 "SIGABRT and SIGSEGV raised in-process at call depths %s with --max-stack %d; e2e: every "
-                "termination mode x k-th event (k = 1..5 and random up to 400; thorough: 1..30 and 8 random, 6 programs) x terminating thread, "
+                "termination mode x k-th event (k = 1..5 and random up to 400; thorough: 1..30 and 8 random, 4 programs) x terminating thread, "
                 "2-3 threads, -pg / -finstrument-functions / -mfentry, under the real recorder" % (
                     len(res), len(sres), depths, maxstack),
         "h1_schedules": len(res), "h1_steps_compared": nsteps, "h1_stop_kinds": hows, "h1_flushes_of_unended_buffers": flushes,
